@@ -1,7 +1,7 @@
 (* Props/C08.v -- polyco prediction equals the tempo formula on every entry's span.  Statements only (exact rationals,
    axiom-free); proofs in Proofs/PolycoProofs.v about Model/Polyco.v. *)
 From Coq Require Import ZArith QArith Qround List Bool.
-From PB Require Import Model.Polyco Proofs.PolycoProofs.
+From PB Require Import Model.Polyco Proofs.PolycoProofs Gen.GenPolyco Proofs.PolycoGen.
 Import ListNotations.
 Open Scope Q_scope.
 
@@ -68,6 +68,32 @@ Proof. vm_compute. repeat split; reflexivity. Qed.
 
 (* PARTIAL: time_at (Newton root finding) is decided by the correspondence run + monitor only (|p(time_at(phi)) - phi| <= 1e-8). *)
 
+(* tie to the source by translation (T14): span edges, one pass of the interval-merge loop, the membership test and dt of
+   _get_index_and_dt, how __call__ / f0 / phasepol use the selected entry, the coefficient updates, padding and line count of from_polyco
+   are GENERATED from pulsar/predictor.py on this run (its other statements pinned); the model is proved equal to them *)
+Theorem C08_generated_intervals : (forall e, e_start e = gen_e_start e /\ e_end e = gen_e_end e /\ e_end e = gen_span_end e) /\
+  (forall eps l start stop acc, merge eps l start stop acc = merge_gen eps l start stop acc).
+Proof. exact (conj span_edges_generated merge_generated). Qed.
+Theorem C08_generated_selection : forall eps es t,
+  index_dt eps es t =
+  if existsb (fun ab => gen_in_interval ab t) (intervals eps es) then
+    match nth_error es (searchsorted (map gen_span_end es) t) with Some e => Some (e, gen_dt e t) | None => None end
+  else None.
+Proof. exact index_dt_generated. Qed.
+Theorem C08_generated_evaluation : forall eps es t n,
+  predict eps es t = match index_dt eps es t with Some (e, dt) => Some (gen_predict e dt) | None => None end /\
+  f0 eps es t n = match index_dt eps es t with Some (e, dt) => Some (gen_f0 e dt n) | None => None end /\
+  phasepol eps es t = match index_dt eps es t with Some (e, dt) => Some (gen_phasepol e dt) | None => None end.
+Proof. exact (fun eps es t n => conj (predict_generated eps es t) (conj (f0_generated eps es t n) (phasepol_generated eps es t))). Qed.
+Theorem C08_generated_entry : forall r,
+  mk_entry r = match gen_pad (r_coeffs r) with
+               | c0 :: c1 :: rest => Some {| e_tmid := r_tmid r; e_span := r_span r; e_rphase := r_rint r;
+                                            e_poly := conv 1 (gen_c0 r c0 :: gen_c1 r c1 :: rest) |}
+               | _ => None end.
+Proof. exact mk_entry_generated. Qed.
+Theorem C08_generated_lines : forall n, (0 <= n)%Z -> (3 * (gen_coeff_lines n - 1) < n <= 3 * gen_coeff_lines n)%Z.
+Proof. exact coeff_lines_generated. Qed.
+
 Print Assumptions C08_formula.
 Print Assumptions C08_select.
 Print Assumptions C08_derivative.
@@ -75,3 +101,5 @@ Print Assumptions C08_phasepol.
 Print Assumptions C08_intervals_cover.
 Print Assumptions C08_intervals_separated.
 Print Assumptions C08_intervals_endpoints.
+Print Assumptions C08_generated_intervals.
+Print Assumptions C08_generated_entry.
